@@ -700,8 +700,30 @@ std::vector<OptRef> collect_opts(Rng &r, const json &opts)
 }
 
 // the first NT titles are used for add / remove: one contains '=', "t1" is a proper prefix of "t10" and "t" of both
-static const char *TITLES[] = {"t10", "t1", "a=b", "t", "T0", "a b", "q'x", ""};
-static const int NT = 4;
+static const char *TITLES[] = {"t10", "t1", "a=b", "t", "x|y", "it's", "T0", "a b", "q'x", ""};
+static const int NT = 6;
+
+// a title as written in a path: bare, properly quoted, or quoted and malformed
+static std::string path_title(Rng &r, const std::string &t)
+{
+	std::string esc;
+	for (char c : t) {
+		if (c == '\'' || c == '\\')
+			esc += '\\';
+		esc += c;
+	}
+	switch (r.below(8)) {
+	case 0:
+	case 1:
+		return "'" + esc + "'";
+	case 2:
+		return r.chance(1, 2) ? "'" + esc : "'" + esc + "\\"; // never closed / ends in a lone backslash
+	case 3:
+		return "'" + esc.substr(0, esc.size() / 2) + "\\" + esc.substr(esc.size() / 2) + "'"; // a backslash before an ordinary character is no escape
+	default:
+		return t;
+	}
+}
 
 static json typed_value(Rng &r, const std::string &t, bool hostile)
 {
@@ -793,7 +815,7 @@ json gen_api_step(Rng &r, int cl, int ctx, const std::vector<OptRef> &refs, cons
 			if (fl & F_MULTI)
 			{
 				static const char *badidx[] = {"1st", "0x", "2.0", "-1", " 1", "1 ", "0x1"};
-				p += "=" + ((fl & F_TITLE) ? std::string(TITLES[r.below(NT)]) : (r.chance(1, 4) ? std::string(badidx[r.below(7)]) : std::to_string(r.below(3))));
+				p += "=" + ((fl & F_TITLE) ? path_title(r, TITLES[r.below(NT)]) : (r.chance(1, 4) ? std::string(badidx[r.below(7)]) : std::to_string(r.below(3))));
 			}
 			s["name"] = p;
 		} else if ((fl & F_TITLE) && (fl & F_MULTI)) {
